@@ -28,7 +28,10 @@ RULE = ('one case = one (content tree, evidence list, document class, flags) con
         '(segmentation, segment/frame request) reference construction or one find_content_items query; non-trivial = '
         'accepted document with >= 1 referenced and >= 1 unreferenced supplied instance, or accepted segmentation '
         'reference; distinct by (class, record flag, #studies, #series, #referenced, #other, depth, duplicates) resp. '
-        '(builder, request kind, #frames named, source layout)')
+        '(builder, request kind, #frames named, source layout); every coded name / CODE value / NUM unit / qualifier of a generated tree '
+        'is drawn in one of 7 stored forms (plain, scheme version, long code value, URN code value, long / URN + version, context '
+        'group attributes; histograms code_form, coded_*); a name query without a coding scheme version matches the code in any '
+        'version, a query with a version only that version')
 ASSUMPTIONS = [
     'deepcopy and pydicom file write/read reproduce a content item data set attribute for attribute (checked per case '
     'by the canonical-form comparison of the oracle; not modelled)',
